@@ -142,7 +142,7 @@ extra3 = {
 }
 # round 13 (second half) and round 14
 extra4 = {
- "C02": " Created tables whose extension is written in upper / mixed case; fixed-length files whose positions are found automatically, and fixed-length files whose columns are added, dropped and renamed (the committed file must read back as the table the altering process saw); column names holding line breaks, delimiters and quotes, and column names that are paths into one JSON object (refused or read back alike); a table read through --json-query and updated (known finding).",
+ "C02": " Created tables whose extension is written in upper / mixed case; fixed-length files whose positions are found automatically, and fixed-length files whose columns are added, dropped and renamed (the committed file must read back as the table the altering process saw); column names holding line breaks, delimiters and quotes, and column names that are paths into one JSON object (refused or read back alike); a table read through --json-query and updated (known finding); a third of the commit paths run under --color.",
  "C03": " LATERAL joins over a left side without records (fields of both sides, aggregates, as the padded side of an outer join).",
  "C08": " A table read before under import attributes of its own; nine table layouts (fixed-length with found / given / single-line positions, TSV, CRLF CSV, semicolon CSV, LTSV, JSON, JSON Lines) x seventeen failing statements, each transaction compared byte by byte with a control transaction that never ran the failing statement.",
  "C10": " Write-protected tables; tables with a second hard link.",
